@@ -52,3 +52,23 @@ package finalizers
 //@   assert at call Claims#1@030f806e.1: unbox(callarg1, "map[string]any")["iss"] == iface(s.iss)
 //@   assert at call Claims#1@030f806e.1: tnow.n > old(tnow.n) && unbox(callarg1, "map[string]any")["iat"] == unbox(callarg1, "map[string]any")["nbf"] && typeIs(unbox(callarg1, "map[string]any")["iat"], int64) && unbox(unbox(callarg1, "map[string]any")["iat"], int64) == unixsec(unixnano(tnow.ret0[tnow.n - 1]))
 //@   assert at call Claims#1@030f806e.1: typeIs(unbox(callarg1, "map[string]any")["exp"], int64) && (unixnano(tnow.ret0[tnow.n - 1]) + ttl >= 0 ==> unbox(unbox(callarg1, "map[string]any")["exp"], int64) == unixsec(unixnano(tnow.ret0[tnow.n - 1]) + ttl))
+
+// C16: "`exp` exactly the configured TTL later": the TTL in force for a rule is the rule's own when it
+// sets one, otherwise the catalogue entry's - not some default
+//@ func (*jwtFinalizer).WithConfig
+//@   props C16
+//@   ensures ret1 == nil && old(len(rawConfig)) != 0 && conf.TTL != nil ==> unbox(ret0, *jwtFinalizer).ttl == *conf.TTL
+//@   ensures ret1 == nil && old(len(rawConfig)) != 0 && conf.TTL == nil ==> unbox(ret0, *jwtFinalizer).ttl == old(f.ttl)
+//@   ensures ret1 == nil && old(len(rawConfig)) != 0 ==> unbox(ret0, *jwtFinalizer).signer == old(f.signer) && unbox(ret0, *jwtFinalizer).id == old(f.id)
+
+// C16 / C11: "signed with the currently active key ... also while key stores are being reloaded": the
+// digest by which the finalizer's cache tells signers apart covers the *active* key's id and
+// algorithm (read from one state of the signer) and the issuer - a cached token is not reused after
+// the active key changed.
+//@ func (*jwtSigner).Hash
+//@   props C16 C11
+//@   nomaprange Write
+//@   ensures shanew.n == old(shanew.n) + 1
+//@   ensures (exists k int :: old(hw.n) <= k && k < hw.n && hw.arg0[k] == shanew.ret0[old(shanew.n)] && hw.arg1[k] == bytesOf(old(s.jwk.KeyID)))
+//@   ensures (exists k int :: old(hw.n) <= k && k < hw.n && hw.arg0[k] == shanew.ret0[old(shanew.n)] && hw.arg1[k] == bytesOf(old(s.jwk.Algorithm)))
+//@   ensures (exists k int :: old(hw.n) <= k && k < hw.n && hw.arg0[k] == shanew.ret0[old(shanew.n)] && hw.arg1[k] == bytesOf(old(s.iss)))
